@@ -36,15 +36,35 @@ type KnownFinding struct {
 }
 
 type Ctx struct {
-	P       *Program
-	Prop    string
-	Tier    string
-	Obs     []*Obligation
-	Stats   map[string]int
-	seen    map[string]bool
-	seenMsg map[string]bool
-	Notes   []string
-	rule    string
+	P        *Program
+	Prop     string
+	Tier     string
+	Obs      []*Obligation
+	Stats    map[string]int
+	seen     map[string]bool
+	seenMsg  map[string]bool
+	extra    map[string]any
+	NoReplay bool
+	Notes    []string
+	rule     string
+}
+
+// Extra adds a key to the evidence's coverage object.
+func (c *Ctx) Extra(k string, v any) {
+	if c.extra == nil {
+		c.extra = map[string]any{}
+	}
+	c.extra[k] = v
+}
+
+// tierDeep is set for the thorough tier: loop rules unroll one iteration further.
+var tierDeep bool
+
+func visits(n int) int {
+	if tierDeep {
+		return n + 1
+	}
+	return n
 }
 
 func NewCtx(p *Program, prop, tier string) *Ctx {
@@ -161,9 +181,11 @@ func (c *Ctx) finish(verifDir string, info propInfo, start time.Time, writeEvide
 	}
 	sort.SliceStable(c.Obs, func(i, j int) bool { return c.Obs[i].Key() < c.Obs[j].Key() })
 	replayDir := filepath.Join(verifDir, "evidence", "replay")
-	os.MkdirAll(replayDir, 0o755)
+	if !c.NoReplay {
+		os.MkdirAll(replayDir, 0o755)
+	}
 	// remove stale replay files of this property
-	if old, _ := filepath.Glob(filepath.Join(replayDir, c.Prop+"-*.json")); old != nil {
+	if old, _ := filepath.Glob(filepath.Join(replayDir, c.Prop+"-*.json")); old != nil && !c.NoReplay {
 		for _, f := range old {
 			os.Remove(f)
 		}
@@ -182,8 +204,10 @@ func (c *Ctx) finish(verifDir string, info propInfo, start time.Time, writeEvide
 		}
 		violations++
 		rp := filepath.Join(replayDir, fmt.Sprintf("%s-%d.json", c.Prop, violations))
-		b, _ := json.MarshalIndent(o, "", " ")
-		os.WriteFile(rp, b, 0o644)
+		if !c.NoReplay {
+			b, _ := json.MarshalIndent(o, "", " ")
+			os.WriteFile(rp, b, 0o644)
+		}
 		fmt.Printf("VIOLATION property=%s replay=%s\n", c.Prop, rp)
 		fmt.Printf("  rule %s.%s, construct %s (%s) [%s]: %s\n", c.Prop, o.Rule, o.Construct, o.Pos, o.Reason, o.Msg)
 		if o.Detail != "" {
@@ -261,6 +285,9 @@ func (c *Ctx) writeEvidence(verifDir string, info propInfo, wall float64, violat
 	}
 	if len(c.Notes) > 0 {
 		cov["notes"] = c.Notes
+	}
+	for k, v := range c.extra {
+		cov[k] = v
 	}
 	ev := map[string]any{
 		"property_id": c.Prop,
